@@ -348,7 +348,10 @@ def generate(ctx, focus):
             except Exception as ex:
                 ctx.note('key kind %s unavailable: %s' % (alg, repr(ex)[:100]))
                 continue
-            mine = behs if ki == 0 else ctx.rng.sample(behs, 60 if ctx.quick else 600)
+            mine = behs if ki == 0 else ctx.rng.sample(behs, 60 if ctx.quick else 300)
+            if not ctx.quick and ki == 0:
+                # thorough: every behaviour to depth 4 and a seeded sample of the 13 000 of depth 5
+                mine = [b for b in behs if len(b) <= 4] + ctx.rng.sample([b for b in behs if len(b) == 5], 3000)
             if ctx.quick and ki == 0:
                 mine = [b for b in behs if len(b) <= 3] + ctx.rng.sample([b for b in behs if len(b) == 4], 450)
             ciphers = [SymmetricKeyAlgorithm.AES128, SymmetricKeyAlgorithm.AES256, SymmetricKeyAlgorithm.CAST5, SymmetricKeyAlgorithm.Camellia192,
